@@ -6,6 +6,7 @@
 static size_t g_cap = 2;
 template <class El> struct VYU {
   using E = El; using queue = xenium::vyukov_bounded_queue<typename El::type>;
+  static constexpr bool strong_blocks = true;   // strong operations may wait for a pending operation (documented: blocking)
   static constexpr bool keeps_rejected = true;   // try_push forwards its arguments and constructs in place only on success
   static queue* create() { return new queue(g_cap); }
   static void cfg() { xv::ev("cfg", "kind_bounded", (long)g_cap); }
@@ -17,7 +18,7 @@ template <class El> struct VYU {
 };
 template <class El, unsigned PR> struct NKB {
   using E = El; using queue = xenium::nikolaev_bounded_queue<typename El::type, xenium::policy::pop_retries<PR>>;
-  static constexpr bool keeps_rejected = false;  // try_push takes its argument by value
+  static constexpr bool keeps_rejected = false; static constexpr bool strong_blocks = false;  // try_push takes its argument by value
   static queue* create() { return new queue(g_cap); }
   static void cfg() { auto* q = create(); xv::ev("cfg", "kind_nikbounded", (long)q->capacity()); delete q; }
   static bool push(queue& q, typename El::type&& v) { return q.try_push(std::move(v)); }
